@@ -1,8 +1,6 @@
 import Gaftools.Props.C01b
-import Gaftools.Props.TieA
 import Gaftools.Props.Glue
 import Gaftools.Props.Reflect
-#print axioms Gaftools.TieA.mergeNodes_gen_eq_model
 #print axioms Gaftools.C01.contigSlice_node
 #print axioms Gaftools.C01.contigSlice_append
 #print axioms Gaftools.C01.mergeGo_spell
@@ -25,8 +23,6 @@ import Gaftools.Props.Reflect
 #print axioms Gaftools.Glue.parse_render_unstable
 #print axioms Gaftools.Glue.parse_render_ivs
 #print axioms Gaftools.Glue.parse_render_bare
-#print axioms Gaftools.TieA.searchIv_gen_eq_model
-#print axioms Gaftools.TieA.overlapCaseConv_gen_eq_model
 #print axioms Gaftools.Reflect.segsOf_eq
 #print axioms Gaftools.Reflect.validRGFAB_sound
 #print axioms Gaftools.Reflect.validRGFAB_tagged
